@@ -159,3 +159,147 @@ def replay_c06(doc):
     for v in bad[:3]:
         print('  ', v['what'], v.get('witness'))
     return not bad
+
+
+def c17_parallel_map(table, reg, tier, seed):
+    """C17 stand-in (bounded): the real utils.threading.parallel_map with asyncio.as_completed replaced by a
+    shim that delivers the futures of a chunk in every permutation (n <= 4) or in seeded random permutations,
+    over lengths around multiples of the chunk size, several thread counts, iterable kinds, sort on/off."""
+    import asyncio
+    import itertools
+    import contextlib
+    import io
+    from taskchain.utils import threading as T
+    r = random.Random(seed)
+    violations = []
+    tried = 0
+    real_as_completed = asyncio.as_completed
+
+    def run_with_order(order_fn, fun, iterable, **kw):
+        def fake_as_completed(futs, *a, **k):
+            futs = list(futs)
+            perm = order_fn(len(futs))
+
+            async def wait_all():
+                await asyncio.gather(*futs, return_exceptions=True)
+
+            async def get(i):
+                return await futs[i]
+            # make sure all are done, then hand them out in the chosen order
+            first = True
+            for i in perm:
+                yield_first = first
+                first = False
+
+                async def one(i=i, yield_first=yield_first):
+                    if yield_first:
+                        await asyncio.gather(*futs, return_exceptions=True)
+                    return await futs[i]
+                yield one()
+        T.asyncio.as_completed = fake_as_completed
+        try:
+            with contextlib.redirect_stderr(io.StringIO()):
+                return T.parallel_map(fun, iterable, **kw)
+        finally:
+            T.asyncio.as_completed = real_as_completed
+
+    def check(xs_factory, n, threads, chunksize, sort, order_fn, label):
+        nonlocal tried
+        calls = []
+
+        def f(x):
+            calls.append(x)
+            return ('out', x)
+        tried += 1
+        try:
+            res = run_with_order(order_fn, f, xs_factory(), threads=threads, chunksize=chunksize, sort=sort, use_tqdm=False)
+        except Exception as e:
+            violations.append({'obligation': 'C17.standin.parallel_map', 'kind': 'extra', 'check': 'c17_parallel_map',
+                               'what': f'parallel_map raised {type(e).__name__}: {e}', 'witness': label})
+            return
+        expect = [('out', x) for x in range(n)]
+        ok = res == expect if (sort or threads == 1) else all(
+            sorted(res[i:i + chunksize]) == sorted(expect[i:i + chunksize]) for i in range(0, n, chunksize)) and len(res) == n
+        if not ok:
+            violations.append({'obligation': 'C17.standin.parallel_map', 'kind': 'extra', 'check': 'c17_parallel_map',
+                               'what': 'parallel_map result differs from [f(x) for x in xs]' + ('' if sort else ' (per-chunk permutation)'),
+                               'witness': label, 'result': repr(res)[:200]})
+        elif sorted(calls) != list(range(n)):
+            violations.append({'obligation': 'C17.standin.parallel_map.once', 'kind': 'extra', 'check': 'c17_parallel_map',
+                               'what': 'f was not called exactly once per element', 'witness': label, 'calls': repr(sorted(calls))[:200]})
+
+    kinds = {'list': lambda n: (lambda: list(range(n))), 'gen': lambda n: (lambda: (i for i in range(n))),
+             'range': lambda n: (lambda: range(n)), 'tuple': lambda n: (lambda: tuple(range(n)))}
+    for chunksize in (1, 2, 3, 1000):
+        ns = sorted({0, 1, 2, chunksize - 1, chunksize, chunksize + 1, 2 * chunksize, 2 * chunksize + 1, 7} - {-1}) if chunksize < 1000 else [0, 1, 3, 5]
+        for n in ns:
+            for threads in (1, 2, 3):
+                for sort in (True, False):
+                    for kind in ('list', 'gen') if tier == 'quick' else kinds:
+                        per_chunk = min(n, chunksize)
+                        if per_chunk <= 3 and threads != 1:
+                            orders = list(itertools.permutations(range(per_chunk)))
+                            fns = [lambda m, o=o: [i for i in o if i < m] + [i for i in range(m) if i not in o] for o in orders]
+                        else:
+                            fns = [lambda m: r.sample(range(m), m) for _ in range(2 if tier == 'quick' else 8)]
+                        for k, fn in enumerate(fns[:6 if tier == 'quick' else 24]):
+                            check(kinds[kind](n), n, threads, chunksize, sort, fn, f'n={n} threads={threads} chunksize={chunksize} sort={sort} iterable={kind} order#{k}')
+    # an exception raised by f propagates
+    for threads in (1, 2):
+        tried += 1
+        try:
+            run_with_order(lambda m: list(range(m)), lambda x: 1 // (x - 2), list(range(5)), threads=threads, chunksize=2, use_tqdm=False)
+            violations.append({'obligation': 'C17.standin.parallel_map.raises', 'kind': 'extra', 'check': 'c17_parallel_map',
+                               'what': 'an exception raised by f did not propagate', 'witness': f'threads={threads}'})
+        except ZeroDivisionError:
+            pass
+        except Exception as e:
+            violations.append({'obligation': 'C17.standin.parallel_map.raises', 'kind': 'extra', 'check': 'c17_parallel_map',
+                               'what': f'f raised ZeroDivisionError but parallel_map raised {type(e).__name__}', 'witness': f'threads={threads}'})
+    # utils.iter.parallel_map (the older variant): order of input, every completion order
+    from taskchain.utils import iter as I
+    for n in (0, 1, 2, 3, 5):
+        for threads in (1, 2):
+            orders = list(itertools.permutations(range(n))) if n <= 3 else [tuple(r.sample(range(n), n)) for _ in range(4)]
+            for o in orders:
+                tried += 1
+
+                def fake(futs, *a, **k):
+                    futs = list(futs)
+                    for idx, i in enumerate(o):
+                        async def one(i=i, idx=idx):
+                            if idx == 0:
+                                await asyncio.gather(*futs, return_exceptions=True)
+                            return await futs[i]
+                        yield one()
+                I.asyncio.as_completed = fake
+                try:
+                    with contextlib.redirect_stderr(io.StringIO()):
+                        res = I.parallel_map(lambda x: x * 10, list(range(n)), threads=threads)
+                except Exception as e:
+                    res = f'raised {type(e).__name__}: {e}'
+                finally:
+                    I.asyncio.as_completed = real_as_completed
+                if res != [x * 10 for x in range(n)]:
+                    violations.append({'obligation': 'C17.standin.iter_parallel_map', 'kind': 'extra', 'check': 'c17_parallel_map',
+                                       'what': 'utils.iter.parallel_map result differs from [f(x) for x in xs]', 'witness': f'n={n} threads={threads} order={o}',
+                                       'result': repr(res)[:200]})
+    # keep one witness per obligation
+    seen = set()
+    uniq = []
+    for v in violations:
+        if v['obligation'] not in seen:
+            seen.add(v['obligation'])
+            uniq.append(v)
+    return {'name': 'c17_parallel_map', 'bounded': [{'what': 'real parallel_map under a completion-order shim (all permutations of a chunk of <= 3, seeded random ones above)',
+                                                      'bound': f'{tried} runs: lengths around multiples of chunk sizes 1,2,3,1000; threads 1-3; sort on/off; list/generator inputs',
+                                                      'tried': tried}],
+            'violations': uniq}
+
+
+def replay_c17(doc):
+    out = c17_parallel_map(None, None, 'quick', 0)
+    bad = [v for v in out['violations'] if v['obligation'] == doc['obligation']]
+    for v in bad[:3]:
+        print('  ', v['what'], v.get('witness'))
+    return not bad
